@@ -794,9 +794,16 @@ func (g *Gen) Tar() Input {
 // rejected with an error) and a valid control per flavour.
 func (g *Gen) Fixed() (out, late []Input) {
 	for _, b := range g.Bases {
-		out = append(out, Input{Class: "valid:" + b.Comp, Kind: "blob", Data: b.Blob, ExtTOC: b.ExtTOC, Note: b.Comp})
+		out = append(out, Input{Class: "valid:" + b.Comp, Kind: "blob", MustOK: true, Data: b.Blob, ExtTOC: b.ExtTOC, Note: b.Comp})
 	}
 	gz := g.Bases[0]
+	// well-formed layers with an entry for the root directory itself (tars made with `tar -C dir .`)
+	for _, rn := range []string{"./", "/", ".", ""} {
+		ents := append([]Ent{E(rn, "dir", "mode", 0o755)}, cloneEnts(gz.Entries)...)
+		in := g.blobInput(gz, "scenario:root-entry:"+hexOrDash([]byte(rn)), tocText(1, ents))
+		in.MustOK = true
+		out = append(out, in)
+	}
 	body := gz.Blob[:len(gz.Blob)-51]
 	// c08616d: short FEXTRA subfield, externaltoc without FEXTRA, zstd on < 40 bytes
 	out = append(out,
